@@ -186,6 +186,12 @@ pub enum Template {
     OverflowReplay,
     /// root created on one vthread and finished / cancelled on another around a cycle
     CrossQueue,
+    /// a forest captured under a LocalCollector, pushed to several parents and converted
+    Forest,
+    /// children finished on other vthreads before the root finishes (cancelable must-sets)
+    FanIn,
+    /// extraction points: nested scopes with open local spans, then remote roots
+    Extract,
 }
 
 impl Profile {
@@ -442,6 +448,97 @@ fn template_strategy(p: &Profile, t: Template) -> BoxedStrategy<Program> {
                 t0.push(Op::Flush);
                 t0.extend(post);
                 Program { cancelable, threads: vec![t0, other], cycles, schedule }
+            })
+            .boxed(),
+        Template::Forest => (
+            canc,
+            proptest::collection::vec(
+                prop_oneof![
+                    5 => (0u8..3, strseed(p.str_classes)).prop_map(|(np, s)| Op::EnterLocal { np, s, probe: false }),
+                    4 => Just(Op::PopGuard { collect: true, early: false }),
+                    2 => (0u8..3, strseed(p.str_classes)).prop_map(|(n, s)| Op::AddEvent { handle: None, n, s, re: vec![] }),
+                    2 => (1u8..3, strseed(p.str_classes)).prop_map(|(n, s)| Op::AddProps { handle: None, n, s, re: vec![] }),
+                ],
+                2..12,
+            ),
+            0usize..4,
+            proptest::collection::vec(any::<u16>(), 1..6),
+            any::<bool>(),
+            proptest::collection::vec(op.clone(), 0..5),
+            0u8..3,
+            sched,
+        )
+            .prop_map(move |(cancelable, forest, open_at_collect, pushes, multi, tail, cycles, schedule)| {
+                let mut t0 = vec![root.clone(), root.clone(), Op::Child { parents: vec![0], np: 0, s: StrSeed { c: 0, l: 1 } }];
+                if multi {
+                    t0.push(Op::Child { parents: vec![0, 30000], np: 0, s: StrSeed { c: 0, l: 2 } });
+                }
+                let mut t1 = vec![Op::CollectorStart { probe: false }];
+                // keep the forest well nested, leaving `open_at_collect` spans open
+                let mut depth = 0usize;
+                for o in forest {
+                    match o {
+                        Op::EnterLocal { .. } => {
+                            depth += 1;
+                            t1.push(o);
+                        }
+                        Op::PopGuard { .. } => {
+                            if depth > 0 {
+                                depth -= 1;
+                                t1.push(o);
+                            }
+                        }
+                        o => t1.push(o),
+                    }
+                }
+                while depth > open_at_collect.min(3) {
+                    t1.push(Op::PopGuard { collect: true, early: false });
+                    depth -= 1;
+                }
+                t1.push(Op::PopGuard { collect: true, early: depth > 0 });
+                for sp in pushes {
+                    t1.push(Op::PushChildSpans { span: sp, set: 0 });
+                }
+                t1.push(Op::ToSpanRecords { set: 0, tc: 1, tr: 77, pr: 99 });
+                t1.extend(tail);
+                Program { cancelable, threads: vec![t0, t1], cycles, schedule }
+            })
+            .boxed(),
+        Template::FanIn => (canc, 1usize..4, proptest::collection::vec(op.clone(), 0..3), proptest::collection::vec(op.clone(), 0..3), 1u8..6, sched)
+            .prop_map(move |(cancelable, nchild, a, b, cycles, schedule)| {
+                let mut t0 = vec![root.clone()];
+                for _ in 0..nchild {
+                    t0.push(Op::Child { parents: vec![0], np: 0, s: StrSeed { c: 0, l: 1 } });
+                }
+                t0.extend(a);
+                let mut t1 = vec![];
+                for _ in 0..nchild {
+                    t1.push(Op::Finish { span: 65535 });
+                }
+                t1.extend(b);
+                let t2 = vec![Op::Flush, Op::Finish { span: 0 }];
+                Program { cancelable, threads: vec![t0, t1, t2], cycles, schedule }
+            })
+            .boxed(),
+        Template::Extract => (canc, proptest::collection::vec(op.clone(), 0..6), any::<bool>(), any::<bool>(), 0u8..3, sched)
+            .prop_map(move |(cancelable, tail, multi, via_tp, cycles, schedule)| {
+                let mut t0 = vec![root.clone(), root.clone()];
+                if multi {
+                    t0.push(Op::Child { parents: vec![40000, 0], np: 0, s: StrSeed { c: 0, l: 1 } });
+                }
+                t0.push(Op::SetLocalParent { span: 65535, probe: false });
+                t0.push(Op::EnterLocal { np: 0, s: StrSeed { c: 0, l: 1 }, probe: false });
+                t0.push(Op::CtxOfLocal);
+                t0.push(Op::EnterLocal { np: 0, s: StrSeed { c: 0, l: 2 }, probe: false });
+                t0.push(Op::CtxOfLocal);
+                t0.push(Op::CtxOfSpan { span: 65535 });
+                t0.push(Op::RootFromCtx { ctx: 65535, via_tp, s: StrSeed { c: 0, l: 3 } });
+                t0.push(Op::RootFromCtx { ctx: 20000, via_tp: !via_tp, s: StrSeed { c: 0, l: 3 } });
+                t0.push(Op::PopGuard { collect: true, early: false });
+                t0.push(Op::CtxOfLocal);
+                t0.push(Op::RootFromCtx { ctx: 65535, via_tp, s: StrSeed { c: 0, l: 3 } });
+                t0.extend(tail);
+                Program { cancelable, threads: vec![t0], cycles, schedule }
             })
             .boxed(),
         Template::CrossQueue => (canc, any::<bool>(), proptest::collection::vec(op.clone(), 0..4), proptest::collection::vec(op, 0..4), 1u8..5, sched)
